@@ -1,6 +1,8 @@
 package props
 
 import (
+	"github.com/ipni/go-libipni/dagsync/ipnisync"
+	"github.com/libp2p/go-libp2p/core/host"
 	"math/big"
 	"encoding/asn1"
 	"crypto/elliptic"
@@ -107,6 +109,12 @@ var headTampers = []headTamper{
 	{"sig-removed", func(r *rand.Rand, h, o *head.SignedHead, oid Ident) *head.SignedHead {
 		n := cpHead(h)
 		n.Sig = nil
+		return n
+	}},
+	{"key-unknown-protobuf-field-appended", func(r *rand.Rand, h, o *head.SignedHead, oid Ident) *head.SignedHead {
+		// the key is a protobuf message: a further field with an unknown number, appended after the known ones
+		n := cpHead(h)
+		n.Pubkey = append(append([]byte(nil), n.Pubkey...), 0x18, 0x01)
 		return n
 	}},
 	{"sig-byte-appended", func(r *rand.Rand, h, o *head.SignedHead, oid Ident) *head.SignedHead {
@@ -232,6 +240,7 @@ func runC03(c *vf.Ctx) {
 	c03Codec(c)
 	c03Bytes(c)
 	c03EndToEnd(c)
+	c03HeadQuery(c)
 }
 
 // the publisher signs the CURRENT root on every head request, also while SetRoot races with head requests
@@ -728,3 +737,88 @@ func httpGet(u string) ([]byte, error) {
 }
 
 var _ = hex.EncodeToString
+
+// c03HeadQuery: the sync client's head query, for roots of every CID form (v0, v1 with several codecs, identity
+// hashed), over every way of reaching the publisher (plain HTTP, libp2p-HTTP discovery, libp2p streams): it yields
+// exactly the CID the publisher was given, and yields nothing when the head was validly signed by another identity.
+func c03HeadQuery(c *vf.Ctx) {
+	const sub = "head-query"
+	if !c.Active(sub) {
+		return
+	}
+	n := c.N(120, 2500)
+	for i := 0; i < n; i++ {
+		if !c.Mine(sub, i) {
+			continue
+		}
+		r := c.Rand(sub, i)
+		cs, err := c03Gen(r)
+		if err != nil {
+			continue
+		}
+		switch r.Intn(4) {
+		case 0:
+			mh, _ := multihash.Sum(rbytes(r, 9), multihash.SHA2_256, -1)
+			cs.root = cid.NewCidV0(mh)
+		case 1:
+			mh, _ := multihash.Sum(rbytes(r, 1+r.Intn(30)), multihash.IDENTITY, -1)
+			cs.root = cid.NewCidV1(cid.Raw, mh)
+		}
+		mode := []FrontMode{MountPlain, MountDiscovery, MountStream}[i%3]
+		foreign := r.Intn(3) == 0 // the head is validly signed, by another identity
+		desc := fmt.Sprintf("%s root=%s mode=%s signed-by-another-identity=%v", cs.id, cs.root, mode, foreign)
+		c.Cur(sub, i, desc)
+		wit := func() any { return map[string]any{"case": desc} }
+		front, err := NewFront(c, cs.id, NewStore(), mode, cs.topic)
+		if err != nil {
+			c.Fail(sub, i, "harness-front", err.Error(), nil)
+			continue
+		}
+		front.Pub.SetRoot(cs.root)
+		if foreign {
+			oh, _ := head.NewSignedHead(cs.root, cs.topic, cs.other.Priv)
+			b, _ := oh.Encode()
+			front.Plan = func(ev ReqEvent) *Fault {
+				if ev.Rsrc == "head" {
+					return &Fault{Body: b, Label: "head signed by another identity"}
+				}
+				return nil
+			}
+		}
+		var copts []ipnisync.ClientOption
+		var ch host.Host
+		if mode == MountStream {
+			if ch, err = newHost(); err != nil {
+				c.Inconclusive(sub, i, "host-create", err.Error(), nil)
+				front.Close()
+				continue
+			}
+			copts = append(copts, ipnisync.ClientStreamHost(ch))
+		}
+		c.Guard(sub, i, wit, func() {
+			isync := ipnisync.NewSync(NewStore().Lsys, nil, copts...)
+			defer isync.Close()
+			syncer, err := isync.NewSyncer(front.AddrInfo())
+			if err != nil {
+				c.Fail(sub, i, "newsyncer-error", err.Error(), wit())
+				return
+			}
+			got, err := syncer.GetHead(context.Background())
+			switch {
+			case foreign && err == nil:
+				c.Fail(sub, i, "altered-head-accepted:valid-head-of-another-identity:"+mode.String(), fmt.Sprintf("GetHead returned %s", got), wit())
+			case !foreign && err != nil:
+				c.Fail(sub, i, "genuine-head-rejected:"+cs.id.Type, err.Error(), wit())
+			case !foreign && (got.String() != cs.root.String() || !bytes.Equal(got.Bytes(), cs.root.Bytes())):
+				c.Fail(sub, i, "head-query-yields-another-cid-than-the-signed-one", fmt.Sprintf("got %s, the publisher signed %s", got, cs.root), wit())
+			}
+		})
+		if ch != nil {
+			ch.Close()
+		}
+		front.Close()
+		c.Eval(1)
+		c.Inc("head_queries_" + mode.String())
+		c.Distinct(sub, cs.id.Type, mode.String(), fmt.Sprint(foreign), fmt.Sprint(cs.root.Version(), cs.root.Prefix().MhType))
+	}
+}
